@@ -84,6 +84,16 @@ static Result run_range(const json &c) {
     r.discard = true;
     return r;
   }
+  if (R.kind == RefRange::HUGE) {
+    // numbers beyond 10^9: accepted or rejected, but parsing must be free of undefined behaviour (UBSan is the oracle)
+    r.cls("huge-numbers");
+    votca::tools::RangeParser rp;
+    try {
+      rp.Parse(expr);
+    } catch (const std::exception &) {
+    }
+    return r;
+  }
   Enumerated E = impl_range(expr);
   bool stride_nt = false;
   {
@@ -159,6 +169,10 @@ static std::string gen_block(bool allow_bad) {
       b = std::to_string(a) + ":" + std::to_string(s) + ":" + std::to_string(a + s * n + slack);
   } else
     b = num() + ":" + std::to_string(ri(-3, 3)) + ":" + num();
+  if (rbool(4)) {
+    auto big = [&]() { return std::to_string(rl(1000000000L, 999999999999999999L)); };
+    b = rbool(50) ? num() + ":" + big() + ":" + big() : big() + ":" + big();
+  }
   if (allow_bad) {
     int m = ri(0, 7);
     if (m == 0) b = num() + "::" + num();
